@@ -394,6 +394,13 @@ func replayStore(c *Ctx, op string, a map[string]string) {
 		cfgStoreBG(c, a["kind"], life, gci)
 		return
 	}
+	if op == "st.bg_loop" {
+		var life, lag int64
+		fmt.Sscan(a["life"], &life)
+		fmt.Sscan(a["lag"], &lag)
+		stBGLoop(c, a["kind"], life, lag)
+		return
+	}
 	if op == "clock.stall" {
 		ms, _ := strconv.Atoi(a["ms"])
 		clockStall(c, ms)
@@ -476,6 +483,9 @@ func runStore(c *Ctx, pf storeProfile) {
 		for _, kind := range []string{"memory", "redis"} {
 			for _, life := range []int64{0, -5, int64(time.Millisecond), int64(time.Hour)} {
 				cfgStoreBG(c, kind, life, int64(30*time.Millisecond))
+			}
+			for _, lag := range []int64{0, int64(500 * time.Millisecond), int64(900 * time.Millisecond)} {
+				stBGLoop(c, kind, int64(time.Second), lag)
 			}
 		}
 	}
